@@ -59,6 +59,7 @@ Next == \E j \in DOMAIN Nodes[node + 1].e :
           LET e == Nodes[node + 1].e[j]
               r == Alphabet[e[2]]
               f == Tag("cloud", CloudViol(g.rep, r, RespOf(e[3]), Obs[node + 1], Obs[e[1] + 1])) IN
+          /\ e[1] >= 0                       \* (-1: target beyond the explorer's state cap)
           /\ node' = e[1]
           /\ g' = [flags |-> g.flags \cup (f \ Ignore), rep |-> CloudGhost(g.rep, r, RespOf(e[3]))]
           /\ last' = [from |-> node, req |-> r, c |-> Resps[e[3]][1], new |-> f]
@@ -74,20 +75,22 @@ EdgesWhere(Bad(_, _)) == UNION {BadAt(i, Bad) : i \in DOMAIN Nodes}
 
 Conforms(i, e) ==
   LET o == CloudStep(Abs[i], Alphabet[e[2]], K) IN
-  o.resp = RespOf(e[3]) /\ o.s = Abs[e[1] + 1]
+  o.resp = RespOf(e[3]) /\ (e[1] >= 0 => o.s = Abs[e[1] + 1])
 
 Divergent == EdgesWhere(LAMBDA i, e : ~Conforms(i, e))
 Malformed == {i \in DOMAIN Nodes : ~WellFormed(Nodes[i].o.loc)}
 NEdges    == FoldLeft(LAMBDA acc, nd : acc + Len(nd.e), 0, Nodes)
 \* refused put_batch calls that nevertheless staged a prefix (information, not a C16 clause)
-PartialBatch == EdgesWhere(LAMBDA i, e : Alphabet[e[2]].op = "Batch" /\ Resps[e[3]][1] # "ok"
+Truncated == EdgesWhere(LAMBDA i, e : e[1] < 0)
+PartialBatch == EdgesWhere(LAMBDA i, e : e[1] >= 0 /\ Alphabet[e[2]].op = "Batch" /\ Resps[e[3]][1] # "ok"
                                          /\ Obs[i].ph = "open" /\ Obs[e[1] + 1].view # Obs[i].view)
 
 ShowState(s) == [loc |-> Dump(s.loc), ph |-> s.ph, log |-> Dump(s.log)]
 Describe(p) ==
   LET nd == Nodes[p[1]] e == nd.e[p[2]] r == Alphabet[e[2]] IN
   [node |-> nd.id, ri |-> e[2], req |-> r, backend |-> "cloud",
-   pre |-> ShowState(Abs[p[1]]), resp |-> Resps[e[3]], post |-> ShowState(Abs[e[1] + 1]),
+   pre |-> ShowState(Abs[p[1]]), resp |-> Resps[e[3]],
+   post |-> IF e[1] >= 0 THEN ShowState(Abs[e[1] + 1]) ELSE ShowState(CloudInit),
    expected |-> LET o == CloudStep(Abs[p[1]], r, K) IN [resp |-> o.resp, s |-> ShowState(o.s)]]
 
 Report ==
@@ -96,7 +99,9 @@ Report ==
     edges       |-> NEdges,
     malformed   |-> Cardinality(Malformed),
     divergences |-> SetToSeq({Describe(p) : p \in Divergent}),
+    truncated_edges |-> Cardinality(Truncated),
     partial_batches |-> Cardinality(PartialBatch) ]
 
-ASSUME JsonSerialize(IOEnv.KVV_REPORT, Report)
+\* (the report does not depend on Ignore: the runs that only look for one more violating history skip it)
+ASSUME IOEnv.KVV_DO_REPORT = "false" \/ JsonSerialize(IOEnv.KVV_REPORT, Report)
 =============================================================================
